@@ -1,6 +1,6 @@
 #!/bin/bash
 # one_check_matrix.sh <ID> <seed dir>...: run one check against scratch copies with each patch applied (8 in parallel); prints name rc
 id=$1; shift
-run1() { d=$1; id=$2; n=$(basename $d); c=$(mktemp -d /tmp/ocm-XXXXXX); rsync -a --exclude .git --exclude '*.o' --exclude '*.lo' --exclude .libs --exclude /tests --exclude /doc /repo/ $c/r/; if ! patch -p1 -s -f -d $c/r -i $d/patch.diff >/dev/null 2>&1; then echo "$n APPLY_FAILED"; rm -rf $c; return; fi; out=$(cd /verif && HWLOC_REPO=$c/r VERIF_OUT=$c/out ./check $id 2>&1); rc=$?; echo "$n rc=$rc $(echo "$out" | grep -E '^  rule=' | sed 's/ at .*//' | sort -u | tr '\n' ' ' | cut -c1-200)"; rm -rf $c; }
+run1() { d=$1; id=$2; n=$(basename $(dirname $d) | sed "s/.*\(C[0-9][0-9]\)-out/\1/")-$(basename $d); c=$(mktemp -d /tmp/ocm-XXXXXX); rsync -a --exclude .git --exclude '*.o' --exclude '*.lo' --exclude .libs --exclude /tests --exclude /doc /repo/ $c/r/; if ! patch -p1 -s -f -d $c/r -i $d/patch.diff >/dev/null 2>&1; then echo "$n APPLY_FAILED"; rm -rf $c; return; fi; out=$(cd /verif && HWLOC_REPO=$c/r VERIF_OUT=$c/out ./check $id 2>&1); rc=$?; echo "$n rc=$rc $(echo "$out" | grep -E '^  rule=' | sed 's/ at .*//' | sort -u | tr '\n' ' ' | cut -c1-200)"; rm -rf $c; }
 export -f run1
 printf '%s\n' "$@" | xargs -P8 -I{} bash -c "run1 {} $id"
